@@ -453,6 +453,10 @@ pub fn run(cfg: &MatrixCfg, rec: &mut Recorder) {
     { let ix = w.ix_collect_reward("X1", "U1", 0, false); step(&mut w, rec, cfg, &mut n, ix); }
     { let ix = w.ix_collect_reward("X1", "U1", 1, true); step(&mut w, rec, cfg, &mut n, ix); }
     { let ix = w.ix_reposition("X2", "U2", -320, 320, 4_000_000_000, 0, 0, u64::MAX, u64::MAX); step(&mut w, rec, cfg, &mut n, ix); }
+    // ... and one that only pays out (tiny new liquidity: both tokens flow from the vaults to the owner, so no token
+    // transfer needs the owner's signature - the program's own authority check is all that stands)
+    { let ix = w.ix_reposition("X2", "U2", -384, 384, 1, 0, 0, u64::MAX, u64::MAX); step(&mut w, rec, cfg, &mut n, ix); }
+    { let ix = w.ix_reposition("X2", "U2", -320, 320, 3_000_000_000, 0, 0, u64::MAX, u64::MAX); step(&mut w, rec, cfg, &mut n, ix); }
     // ---- swaps
     for (pool, v2) in [("P1", false), ("P1", true), ("PT", true), ("PA", true)] {
         { let ix = w.ix_swap(pool, "U3", 1_000_000, 0, 0, true, true, v2); step(&mut w, rec, cfg, &mut n, ix); }
